@@ -48,10 +48,11 @@ def decode_doc(d):
     for n, _ in docgen.walk(doc["root"]):
         if n["tag"] == "defs":
             continue
+        # (paints whose alpha is exactly zero in the colour value itself, not in an opacity attribute)
         if d.chance(3, 8):
-            n["attrs"]["fill"] = d.choice(docgen.PALETTE + ["none"])
+            n["attrs"]["fill"] = d.choice(docgen.PALETTE + ["none", "transparent", "rgba(255,0,0,0)", "#0000ff00"])
         if d.chance(3, 8):
-            n["attrs"]["stroke"] = d.choice(docgen.PALETTE + ["none"])
+            n["attrs"]["stroke"] = d.choice(docgen.PALETTE + ["none", "transparent", "rgba(0,128,0,0)", "#ff000000"])
         if d.chance(2, 8):
             n["attrs"]["stroke-width"] = d.choice(["2", "0.5", "3", "1.5"])
         # (an opacity of 1 on a shape resets what a container above it says)
@@ -69,7 +70,7 @@ def decode_tree(d):
         shapes.append([sp, gen.matrix(d)["m"] if d.bool() else None, d.choice(docgen.PALETTE + ["none"]), d.choice(docgen.PALETTE + ["none"]), d.choice([1.0, 2.0, 0.5, 3.25]),
                        # how the paint reaches the shape: attributes set afterwards / constructor keywords / keywords with a
                        # translucent Color and a python-style opacity keyword / keywords, then the alpha edited on the object
-                       d.choice(["attr", "attr", "kwargs", "kwargs+opacity", "edited"]), d.choice([0.5, 0.25, 0.75, 0.4]), d.choice([0.5, 0.25, 0.8])])
+                       d.choice(["attr", "attr", "kwargs", "kwargs+opacity", "edited"]), d.choice([0.5, 0.25, 0.75, 0.4, 0.0]), d.choice([0.5, 0.25, 0.8, 0.0])])
     vb = None
     if d.bool():
         vb = "%s %s %s %s" % (docgen.fmtn(docgen.num(d, -20, 20)), docgen.fmtn(docgen.num(d, -20, 20)), docgen.fmtn(max(docgen.num(d, 20, 400), 1.0)), docgen.fmtn(max(docgen.num(d, 20, 400), 1.0)))
